@@ -168,7 +168,9 @@ func main() {
 	}
 
 	if err := app.Run(os.Args); err != nil {
+		// errors that are not cli.ExitCoder (usage errors, a failing template write) end up here
 		fmt.Fprint(os.Stderr, err)
+		os.Exit(1)
 	}
 }
 
